@@ -224,6 +224,38 @@ pub fn op_fromstr(a: &[&str]) -> String {
         "gct2" => fs!(PodGroupedElGamalCiphertext2Handles),
         "gct3" => fs!(PodGroupedElGamalCiphertext3Handles),
         "aect" => fs!(PodAeCiphertext),
+        c => proof_text(c, Some(s), &[]),
+    }
+}
+
+/// text forms of the proof pod types (their module is private: the types are reached through the
+/// `proof` field of the instruction data). `s = Some(text)`: FromStr -> bytes; `None`: Display of `raw`
+fn proof_text(codec: &str, s: Option<&str>, raw: &[u8]) -> String {
+    use solana_zk_sdk::zk_elgamal_proof_program::proof_data::*;
+    fn go<D: bytemuck::Pod, P: bytemuck::Pod + std::fmt::Display + FromStr>(f: fn(&D) -> &P, s: Option<&str>, raw: &[u8]) -> String {
+        let _ = f;
+        match s {
+            Some(t) => match P::from_str(t) { Ok(p) => okhex(bytemuck::bytes_of(&p)), Err(_) => "err".into() },
+            None => {
+                if raw.len() != std::mem::size_of::<P>() { return "bad-op".into() }
+                let p: P = bytemuck::pod_read_unaligned(raw);
+                hex(format!("{}", p).as_bytes())
+            }
+        }
+    }
+    match codec {
+        "p-zero" => go(|d: &ZeroCiphertextProofData| &d.proof, s, raw),
+        "p-pubkey" => go(|d: &PubkeyValidityProofData| &d.proof, s, raw),
+        "p-ctct" => go(|d: &CiphertextCiphertextEqualityProofData| &d.proof, s, raw),
+        "p-ctcmt" => go(|d: &CiphertextCommitmentEqualityProofData| &d.proof, s, raw),
+        "p-val2" => go(|d: &GroupedCiphertext2HandlesValidityProofData| &d.proof, s, raw),
+        "p-val3" => go(|d: &GroupedCiphertext3HandlesValidityProofData| &d.proof, s, raw),
+        "p-bval2" => go(|d: &BatchedGroupedCiphertext2HandlesValidityProofData| &d.proof, s, raw),
+        "p-bval3" => go(|d: &BatchedGroupedCiphertext3HandlesValidityProofData| &d.proof, s, raw),
+        "p-cap" => go(|d: &PercentageWithCapProofData| &d.proof, s, raw),
+        "p-range64" => go(|d: &BatchedRangeProofU64Data| &d.proof, s, raw),
+        "p-range128" => go(|d: &BatchedRangeProofU128Data| &d.proof, s, raw),
+        "p-range256" => go(|d: &BatchedRangeProofU256Data| &d.proof, s, raw),
         _ => "bad-op".into(),
     }
 }
@@ -246,8 +278,14 @@ pub fn op_tostr(a: &[&str]) -> String {
         "cmt" => ts!(PodPedersenCommitment, 32),
         "gct2" => ts!(PodGroupedElGamalCiphertext2Handles, 96),
         "gct3" => ts!(PodGroupedElGamalCiphertext3Handles, 128),
-        "aect" => ts!(PodAeCiphertext, 36),
-        _ => "bad-op".into(),
+        "aect" => {
+            // the typed ciphertext prints the same text as its Pod form
+            let pod = ts!(PodAeCiphertext, 36);
+            let typed = solana_zk_sdk::encryption::auth_encryption::AeCiphertext::from_bytes(&b).map(|c| hex(format!("{}", c).as_bytes()));
+            if typed.as_deref() != Some(pod.as_str()) { return format!("variant-mismatch:{}:{:?}", pod, typed) }
+            pod
+        }
+        c => proof_text(c, None, &b),
     }
 }
 
